@@ -721,7 +721,7 @@ def parse_tlog(text):
             continue
         if cur is None:
             continue
-        if line[:2] in ("P ", "A ", "G ", "E ", "F ", "T "):
+        if line[:2] in ("P ", "A ", "G ", "E ", "F ", "T ", "L "):
             cur[2].append(line.split(" "))
         elif line.startswith("TRACE ") or line.startswith("STAT ") or line.startswith("DIST "):
             cur = None
